@@ -1,7 +1,7 @@
 SPECIFICATION Spec
 CONSTANTS
   Secrets = {"k1", "k2", "k1 ", " k1"}
-  Users = {"@alice:example.org", "@Alice:example.org", "@bob:example.org"}
+  Users = {"@alice:example.org", "@Alice:example.org", "@bob:example.org", "user1", "_irc_dave"}
   Durations <- DurationsThorough
   Offsets <- OffsetsThorough
   MaxAlter = 2
